@@ -320,6 +320,32 @@ mod sd {
         s.push(']');
         s
     }
+    fn check_joined(p: &[Edge<Kt, i64, Et>]) -> usize {
+        for w in p.windows(2) {
+            if w[0].target().key() != w[1].source().key() { panic!("a returned path is not joined end to start"); }
+        }
+        p.len()
+    }
+    // every traversal entry point once, from n, towards key 3 (C17: traversals among the concurrent calls)
+    fn traverse_all(n: &Node<Kt, i64, Et>) -> usize {
+        let t = Kt::of(3);
+        let mut c = 0usize;
+        if n.bfs().target(&t).search().is_some() { c += 1; }
+        if n.dfs().target(&t).search().is_some() { c += 1; }
+        if let Some(p) = n.bfs().target(&t).search_path() { c += check_joined(&p.to_vec_edges()); }
+        if let Some(p) = n.dfs().target(&t).search_path() { c += check_joined(&p.to_vec_edges()); }
+        if let Some(p) = n.pfs().target(&t).search_path() { c += check_joined(&p.to_vec_edges()); }
+        if let Some(p) = n.pfs().max().target(&t).search_path() { c += check_joined(&p.to_vec_edges()); }
+        if let Some(p) = n.bfs().search_cycle() { c += check_joined(&p.to_vec_edges()); }
+        if let Some(p) = n.dfs().search_cycle() { c += check_joined(&p.to_vec_edges()); }
+        if let Some(p) = n.bfs().transpose().target(&t).search_path() { c += check_joined(&p.to_vec_edges()); }
+        c += n.preorder().search_nodes().len();
+        c += n.postorder().search_edges().len();
+        c += n.postorder().transpose().search_nodes().len();
+        let mut seen = 0usize;
+        n.bfs().for_each(&mut |_e| { seen += 1; }).search();
+        c + seen
+    }
     include!("conc.rs");
 }
 mod u {
@@ -416,6 +442,29 @@ mod su {
         for e in n.iter() { s.push_str(&format!("({}>{}:{})", e.source().key(), e.target().key(), e.value())); }
         s.push(']');
         s
+    }
+    fn check_joined(p: &[Edge<Kt, i64, Et>]) -> usize {
+        for w in p.windows(2) {
+            if w[0].target().key() != w[1].source().key() { panic!("a returned path is not joined end to start"); }
+        }
+        p.len()
+    }
+    fn traverse_all(n: &Node<Kt, i64, Et>) -> usize {
+        let t = Kt::of(3);
+        let mut c = 0usize;
+        if n.bfs().target(&t).search().is_some() { c += 1; }
+        if n.dfs().target(&t).search().is_some() { c += 1; }
+        if let Some(p) = n.bfs().target(&t).search_path() { c += check_joined(&p.to_vec_edges()); }
+        if let Some(p) = n.dfs().target(&t).search_path() { c += check_joined(&p.to_vec_edges()); }
+        if let Some(p) = n.pfs().target(&t).search_path() { c += check_joined(&p.to_vec_edges()); }
+        if let Some(p) = n.pfs().max().target(&t).search_path() { c += check_joined(&p.to_vec_edges()); }
+        if let Some(p) = n.bfs().search_cycle() { c += check_joined(&p.to_vec_edges()); }
+        if let Some(p) = n.dfs().search_cycle() { c += check_joined(&p.to_vec_edges()); }
+        c += n.order().pre().search_nodes().len();
+        c += n.order().post().search_edges().len();
+        let mut seen = 0usize;
+        n.bfs().for_each(&mut |_e| { seen += 1; }).search();
+        c + seen
     }
     include!("conc.rs");
 }
